@@ -6,7 +6,9 @@
 (define-fun files_wf ((t (Array Str (Option T_storage_UnifiedFile)))) Bool
   (forall ((k Str)) (! (=> ((_ is some_T_storage_UnifiedFile) (select t k))
      (and (= k (file_key (T_storage_UnifiedFile_Merkle (val_T_storage_UnifiedFile (select t k))) (T_storage_UnifiedFile_Owner (val_T_storage_UnifiedFile (select t k))) (T_storage_UnifiedFile_Start (val_T_storage_UnifiedFile (select t k)))))
-          (>= (T_storage_UnifiedFile_FileSize (val_T_storage_UnifiedFile (select t k))) 1) (>= (T_storage_UnifiedFile_MaxProofs (val_T_storage_UnifiedFile (select t k))) 1)))
+          (>= (T_storage_UnifiedFile_FileSize (val_T_storage_UnifiedFile (select t k))) 1) (>= (T_storage_UnifiedFile_MaxProofs (val_T_storage_UnifiedFile (select t k))) 1)
+          (>= (T_storage_UnifiedFile_ProofInterval (val_T_storage_UnifiedFile (select t k))) 1)
+          (= (off_Slice_Str (T_storage_UnifiedFile_Proofs (val_T_storage_UnifiedFile (select t k)))) 0)))
    :pattern ((select t k)))))
 (define-fun payinfo_wf ((t (Array Str (Option T_storage_StoragePaymentInfo)))) Bool
   (forall ((a Str)) (! (=> ((_ is some_T_storage_StoragePaymentInfo) (select t a)) (= (T_storage_StoragePaymentInfo_Address (val_T_storage_StoragePaymentInfo (select t a))) a)) :pattern ((select t a)))))
@@ -45,3 +47,9 @@
 (define-fun listed_has_record ((proofs (Array Str (Option T_storage_FileProof))) (f T_storage_UnifiedFile) (k Str)) Bool
   (and ((_ is some_T_storage_FileProof) (select proofs k))
        (= k (proof_key (T_storage_FileProof_Prover (val_T_storage_FileProof (select proofs k))) (T_storage_UnifiedFile_Merkle f) (T_storage_UnifiedFile_Owner f) (T_storage_UnifiedFile_Start f)))))
+; every proof record is stored under the key built from its own fields (SetProof is the only writer)
+(define-fun proofs_wf ((t (Array Str (Option T_storage_FileProof)))) Bool
+  (forall ((k Str)) (! (=> ((_ is some_T_storage_FileProof) (select t k))
+     (= k (proof_key (T_storage_FileProof_Prover (val_T_storage_FileProof (select t k))) (T_storage_FileProof_Merkle (val_T_storage_FileProof (select t k)))
+                     (T_storage_FileProof_Owner (val_T_storage_FileProof (select t k))) (T_storage_FileProof_Start (val_T_storage_FileProof (select t k))))))
+   :pattern ((select t k)))))
